@@ -4,7 +4,7 @@
 //   val name <hex> | val unit <hex>        InstrumentMetaDataValidator::ValidateName / ValidateUnit on an exact-size,
 //                                          unterminated buffer                                   -> 1 | 0
 //   mv m <name> <ver> <schema> <enabled 0|1>
-//      ; v <itype> <namepat> <unit> <mname> <mver> <mschema> <vname> <vdesc> <vunit> <agg> <filter>     (a registered view)
+//      ; v <itype> <namepat> <unit> <mname> <mver> <mschema> <vname> <vdesc> <vunit> <agg> <filter> <bounds>   (a registered view)
 //      ; i <itype> <l|d> <name> <unit> <desc>                                                     (an instrument + one measurement)
 //      real MeterProvider + explicit reader; every instrument records one value with attributes {a,b}; one Collect
 //                                          -> [stream|stream…] sorted, stream = n=<hex>,d=<hex>,u=<hex>,t=<itype>,a=<agg>,k=<keys>,v=<value 100+index of the instrument | ->
@@ -14,6 +14,7 @@
 //                                          -> per `g` op: i=<index of the first request that returned this object> out=<items exported> res=<1 if the
 //                                             exported item references the provider's resource>
 // itype: c h u oc og ou   agg: def drop hist last sum   filter: * (none) | e (empty allow-list) | <keyhex>,<keyhex>…
+// bounds: - (no aggregation config) | <int>,<int>… (HistogramAggregationConfig::boundaries_); a histogram stream prints a=hist[:b1:b2…]@<bucket index>
 // matcher: name | ver | schema | any | prefix
 #include "common.h"
 #include "supervised.h"
@@ -37,6 +38,7 @@
 #include "opentelemetry/sdk/metrics/view/attributes_processor.h"
 #include "opentelemetry/sdk/metrics/view/instrument_selector.h"
 #include "opentelemetry/sdk/metrics/view/meter_selector.h"
+#include "opentelemetry/sdk/metrics/aggregation/aggregation_config.h"
 #include "opentelemetry/sdk/metrics/view/view.h"
 #include "opentelemetry/sdk/metrics/view/view_registry.h"
 #include "opentelemetry/sdk/resource/resource.h"
@@ -157,7 +159,7 @@ static std::string handle_mv(const std::vector<std::string> &t)
   for (size_t k = 1; k < ops.size(); k++)
   {
     auto &op = ops[k];
-    if (op.size() == 12 && op[0] == "v")
+    if (op.size() == 13 && op[0] == "v")
     {
       sm::InstrumentType it;
       sm::AggregationType agg;
@@ -183,11 +185,27 @@ static std::string handle_mv(const std::vector<std::string> &t)
         }
         proc.reset(new sm::FilteringAttributesProcessor(allowed));
       }
+      // explicit histogram bucket boundaries: `-` = no aggregation config, else comma separated non-negative integers
+      std::shared_ptr<sm::AggregationConfig> config;
+      if (op[12] != "-")
+      {
+        auto hc = std::make_shared<sm::HistogramAggregationConfig>();
+        std::istringstream is(op[12]);
+        std::string item;
+        while (std::getline(is, item, ','))
+        {
+          char *e = nullptr;
+          long b  = strtol(item.c_str(), &e, 10);
+          if (item.empty() || *e || b < 0 || b > 1000000) return "bad-op";
+          hc->boundaries_.push_back(static_cast<double>(b));
+        }
+        config = hc;
+      }
       try
       {
         std::unique_ptr<sm::InstrumentSelector> isel(new sm::InstrumentSelector(it, pat, unit));
         std::unique_ptr<sm::MeterSelector> msel(new sm::MeterSelector(smn, smv, sms));
-        std::unique_ptr<sm::View> view(new sm::View(vname, vdesc, vunit, agg, nullptr, std::move(proc)));
+        std::unique_ptr<sm::View> view(new sm::View(vname, vdesc, vunit, agg, config, std::move(proc)));
         views->AddView(std::move(isel), std::move(msel), std::move(view));
       }
       catch (const std::exception &)
@@ -290,8 +308,17 @@ static std::string handle_mv(const std::vector<std::string> &t)
           }
           else if (nostd::holds_alternative<sm::HistogramPointData>(pa.point_data))
           {
+            auto &hp = nostd::get<sm::HistogramPointData>(pa.point_data);
+            static const std::vector<double> kDefaultBounds{0.0,   5.0,   10.0,   25.0,   50.0,   75.0,   100.0,  250.0,
+                                                            500.0, 750.0, 1000.0, 2500.0, 5000.0, 7500.0, 10000.0};
+            // a=hist (the default boundaries) or a=hist:<b1>:<b2>… ; the bucket the value fell into follows after '@'
             agg = "hist";
-            val = std::to_string(value_of(nostd::get<sm::HistogramPointData>(pa.point_data).sum_));
+            if (hp.boundaries_ != kDefaultBounds)
+              for (double b : hp.boundaries_) agg += ":" + std::to_string(static_cast<long>(b));
+            if (hp.counts_.size() != hp.boundaries_.size() + 1) agg += "!COUNTS";
+            for (size_t bi = 0; bi < hp.counts_.size(); bi++)
+              if (hp.counts_[bi]) agg += "@" + std::to_string(bi);
+            val = std::to_string(value_of(hp.sum_));
           }
           else if (nostd::holds_alternative<sm::LastValuePointData>(pa.point_data))
           {
